@@ -12,7 +12,9 @@ RULE = ("stateless exploration of the real Queue<int>/Pool code under the vsched
         "oracle as assertions and deadlock as invalid end state; the model is bound to the code in both directions: every schedule the "
         "explorer executed on the real Queue at deviation bound <= 1 (thorough: <= 2) must be accepted by the model with the same "
         "outcome (spin_impl_traces_accepted_by_model), and every complete path of the model for small configurations is executed on "
-        "the real Queue with the scheduler following the path step by step (spin_model_paths_replayed_on_impl).")
+        "the real Queue with the scheduler following the path step by step (spin_model_paths_replayed_on_impl). A conformance failure "
+        "alone is not a verdict (the code may have been restructured harmlessly): it is recorded as spin_model_bound_to_this_tree=false "
+        "and the layer's results are not used; an oracle failure of the real Queue on a scripted model path is a violation.")
 DEADLINE = {"quick": 200, "thorough": 1500}
 
 
@@ -76,6 +78,7 @@ def spin_layer(ctx, h19):
             if len(f) == 3:
                 by[f[0]].add((f[1], f[2]))
         cfgs = {c.name: c for c in spin.H19 + spin.SMALL}
+        diverged = []
         acc_total = tr_total = 0
         names = [n for n in sorted(by) if n in cfgs]
         with ThreadPoolExecutor(max_workers=8) as ex:
@@ -85,9 +88,11 @@ def spin_layer(ctx, h19):
             acc_total += acc; tr_total += len(tr)
             ctx.bound("impl->model: all %d schedules of '%s' with <= %d deviations accepted by the model" % (len(tr), name, k), st["complete"])
             if st["complete"] and acc != len(tr):
-                ctx.violation("spin-model/implementation-trace-not-accepted/" + name.split(":")[0],
-                              "%d of %d implementation schedules of %s are not behaviours of the Promela model (or end in a different outcome): "
-                              "the model does not describe the code (model divergence)\n%s" % (len(tr) - acc, len(tr), name, st["log"][-1200:]), harness=None, spec="")
+                # Not a property verdict: the implementation's step structure or behaviour differs from the modelled one. That can be a
+                # defect (then the explorer's own oracle reports it on the real executions) or a harmless restructuring of the code; in
+                # both cases the model no longer describes this tree, so the results of the Promela layer are not used for it.
+                diverged.append("%d of %d implementation schedules of '%s' are not behaviours of the Promela model" % (len(tr) - acc, len(tr), name))
+                ctx.bound("impl->model: the model describes the implementation ('%s')" % name, False)
         ctx.add("spin_impl_traces_accepted_by_model", acc_total)
         ctx.add("spin_impl_traces_checked", tr_total)
         # 3. model -> implementation: every complete model path of the small configurations runs on the real code
@@ -117,11 +122,20 @@ def spin_layer(ctx, h19):
                         fails.append(line[:500])
             ok_total += ok; path_total += len(paths)
             ctx.bound("model->impl: all %d complete model paths of '%s' (<= 1 timeout step) replayed on the real Queue" % (len(paths), cfg.name), st["complete"] and ok + bad == len(paths))
-            if bad or ok != len(paths):
-                ctx.violation("spin-model/model-path-not-reproduced-by-implementation/" + cfg.name.split(":")[0],
-                              "%d of %d model paths of %s could not be followed by the real Queue or ended in a different outcome\n%s" % (len(paths) - ok, len(paths), cfg.name, "\n".join(fails[:5])), harness=None, spec="")
+            oracle_fails = [f for f in fails if "FAIL oracle:" in f]
+            if oracle_fails:
+                # a model path, executed step by step on the REAL Queue, ended in an oracle failure: a genuine execution of the implementation
+                ctx.violation("spin-model/oracle-violated-on-model-path/" + cfg.name.split(":")[0],
+                              "the real Queue, scheduled along a complete path of the Promela model of %s, violated the C19 oracle: %s" % (cfg.name, oracle_fails[0][:600]), harness=None, spec="")
+            elif bad or ok != len(paths):
+                diverged.append("%d of %d model paths of '%s' could not be followed by the real Queue or ended in a different outcome (%s)" % (len(paths) - ok, len(paths), cfg.name, (fails[0][:200] if fails else "")))
+                ctx.bound("model->impl: the implementation follows the model ('%s')" % cfg.name, False)
         ctx.add("spin_model_paths_replayed_on_impl", ok_total)
         ctx.add("spin_model_paths_total", path_total)
+        ctx.extra["spin_model_bound_to_this_tree"] = not diverged
+        if diverged:
+            ctx.extra["spin_model_divergence"] = diverged[:8]
+            ctx.notes.append("Promela layer: the model does not describe this tree (%s); its results are not used, the verdict rests on the schedule exploration of the real code" % "; ".join(diverged[:3]))
         if ctx.tier == "quick" or ok_total:
             ctx.sample("spin: %d model states over %d configurations (all interleavings); %d/%d implementation schedules accepted by the model; %d/%d model paths replayed on the real Queue" % (states, len(spin.H19) + 4 + len(spin.BIG), acc_total, tr_total, ok_total, path_total))
     finally:
